@@ -3,6 +3,7 @@ package main
 import (
 	"fmt"
 	"os"
+	"runtime/pprof"
 )
 
 type subcmd func(args []string) int
@@ -18,6 +19,15 @@ func main() {
 	if !ok {
 		fmt.Fprintln(os.Stderr, "unknown subcommand", os.Args[1])
 		os.Exit(2)
+	}
+	if pf := os.Getenv("VERIF_CPUPROFILE"); pf != "" {
+		if fh, err := os.Create(pf); err == nil {
+			pprof.StartCPUProfile(fh)
+			rc := f(os.Args[2:])
+			pprof.StopCPUProfile()
+			fh.Close()
+			os.Exit(rc)
+		}
 	}
 	os.Exit(f(os.Args[2:]))
 }
